@@ -272,7 +272,8 @@ class Check(object):
             k = f["id"]
             self.known_seen[k] = self.known_seen.get(k, 0) + 1
             return
-        path = self.write_replay(task, result, clause, step, trace_module)
+        n_same = sum(1 for v in self.violations if v["clause"] == clause)
+        path = self.write_replay(task, result, clause, step, trace_module) if n_same < 3 else self.violations[-1]["replay"]
         self.violations.append({"clause": clause, "step": step, "replay": path, "scen": task["scen"],
                                 "params": task["params"]})
 
@@ -308,8 +309,9 @@ class Check(object):
         ev = {"property_id": self.prop, "tier": self.tier, "seed": self.seed, "level": self.level,
               "coverage": cov, "assumptions": self.assumptions, "wall_s": round(wall, 2),
               "violations": len(self.violations)}
-        os.makedirs(os.path.join(ROOT, "evidence"), exist_ok=True)
-        json.dump(ev, open(os.path.join(ROOT, "evidence", "%s.json" % self.prop), "w"), indent=1, default=str)
+        evdir = os.environ.get("MXV_EVIDENCE_DIR") or os.path.join(ROOT, "evidence")
+        os.makedirs(evdir, exist_ok=True)
+        json.dump(ev, open(os.path.join(evdir, "%s.json" % self.prop), "w"), indent=1, default=str)
         close_pool()
         for k, n in sorted(self.known_seen.items()):
             f = [x for x in self.findings if x["id"] == k][0]
